@@ -589,4 +589,79 @@ Section Coh.
       + inversion E; subst n tu tok v0. rewrite Hfind, ps_beq_refl. exists new.
         split; [reflexivity|]. split; [cbn [psr_observe new]; lia|exists v; exact Hlinev].
   Qed.
+
+  (* ---------------------------------------------------------------- register *)
+  Lemma ps_replace_replace : forall a b m,
+    psr_name a = psr_name b -> ps_replace a (ps_replace b m) = ps_replace a m.
+  Proof.
+    intros a b m Hn. induction m as [|x m IH]; [reflexivity|]. cbn [ps_replace].
+    destruct (ps_beq (psr_name b) (psr_name x)) eqn:Eb.
+    - cbn [ps_replace]. rewrite Hn, ps_beq_refl, Eb. reflexivity.
+    - cbn [ps_replace]. rewrite Hn, Eb. f_equal. exact IH.
+  Qed.
+
+  Lemma ps_inv_reg : forall name tuple token ck pkt m A G,
+    ps_inv m A G -> ps_evt_ok (PsEvReg name tuple token ck pkt) m ->
+    Forall (ps_call_wf (psc_la c) (psc_lt c)) (ps_ev_calls alloc c (PsEvReg name tuple token ck pkt) m) /\
+    ps_inv (fst (ps_ev_out alloc (PsEvReg name tuple token ck pkt) m))
+           (ps_abs_calls (ps_ev_calls alloc c (PsEvReg name tuple token ck pkt) m) A)
+           (ps_ghost (PsEvReg name tuple token ck pkt) m G).
+  Proof.
+    intros name tuple token ck pkt m A G Hi (Hreq & Htu & Hpk). unfold ps_ghost.
+    cbn [ps_ev_calls ps_ev_out].
+    destruct (ps_find name m) as [r|] eqn:Hf;
+      [|cbn [fst snd ps_abs_calls]; rewrite app_nil_r; split; [constructor|exact Hi]].
+    destruct (psr_observable r) eqn:Hobs; cbn [negb];
+      [|cbn [fst snd ps_abs_calls]; rewrite app_nil_r; split; [constructor|exact Hi]].
+    destruct (iv_res _ _ _ Hi name r Hf) as (Hnok & Hrange & Hnd & _).
+    destruct (ps_find_tok tuple token (psr_subs r)) as [s0|] eqn:Et.
+    - (* the same observer again: only the response *)
+      cbn [fst snd ps_abs_calls]. split; [constructor|].
+      destruct (ps_find_tok_some _ _ _ _ Et) as (Hs0 & _).
+      pose proof (iv_cnt3 _ _ _ Hi name r Hf) as Hline.
+      destruct Hi. constructor; try assumption.
+      intros n tu tok v Hin. apply in_app_or in Hin. destruct Hin as [Hin|[E|[]]].
+      + apply (iv_sent0 n tu tok v). exact Hin.
+      + inversion E; subst n tu tok v. exists r. split; [exact Hf|]. split; [lia|].
+        apply Hline. intro X. rewrite X in Hs0. contradiction.
+    - cbn [fst snd].
+      pose proof (ps_find_tok_none_inv _ _ _ Et) as Hnt.
+      set (m1 := ps_replace (mkRsrc name true (psr_observe r) (ps_reg_subs1 tuple ck r)) m).
+      assert (Hkn : len (alloc (ps_live m1)) = PS_KEY) by apply alloc_len.
+      unfold ps_reg_new. fold m1.
+      destruct (ps_find_ck tuple ck (psr_subs r)) as [o|] eqn:Ec.
+      + (* an observer with the same cache key is replaced *)
+        destruct (ps_find_ck_some _ _ _ _ Ec) as (Ho & Hotu & Hock).
+        assert (Es1 : ps_reg_subs1 tuple ck r = ps_drop_key (pss_key o) (psr_subs r))
+          by (unfold ps_reg_subs1; rewrite Ec; reflexivity).
+        pose proof (ps_inv_drop name m A G r o Hi Hf Hobs Ho) as Hmid.
+        rewrite <- Es1 in Hmid. fold m1 in Hmid.
+        set (rmid := mkRsrc name true (psr_observe r) (ps_reg_subs1 tuple ck r)).
+        assert (Hfm : ps_find name m1 = Some rmid)
+          by (apply (ps_find_replace_same rmid m name r); [reflexivity|exact Hf]).
+        destruct (ps_inv_add name m1 _ G rmid tuple token ck pkt (alloc (ps_live m1)) Hmid Hfm eq_refl
+                             Hreq Htu Hpk) as [Hcw Hfin]; try assumption.
+        * cbn [psr_subs rmid]. rewrite Es1. intros s Hs. apply (ps_drop_key_in _ _ s Hnd) in Hs.
+          apply Hnt. exact (proj1 Hs).
+        * cbn [psr_subs rmid]. rewrite Es1. intros s Hs [E1 E2]. apply (ps_drop_key_in _ _ s Hnd) in Hs.
+          destruct Hs as [Hs Hk]. apply Hk. f_equal.
+          apply (iv_ck _ _ _ Hi name s o); [exists r; split; assumption|exists r; split; assumption| |];
+            congruence.
+        * intros n s Hs Ek. apply (alloc_fresh (ps_live m1)). rewrite <- Ek.
+          apply (ps_insub_live m1 n s Hs).
+        * cbn [psr_observe psr_subs rmid] in Hcw, Hfin. cbn [List.app ps_abs_calls].
+          unfold m1 in Hfin. rewrite ps_replace_replace in Hfin by reflexivity. fold m1 in Hfin.
+          split; [constructor; [exact I|exact Hcw]|exact Hfin].
+      + (* a new observer *)
+        assert (Es1 : ps_reg_subs1 tuple ck r = psr_subs r) by (unfold ps_reg_subs1; rewrite Ec; reflexivity).
+        pose proof (ps_find_ck_none_inv _ _ _ Ec) as Hnc.
+        destruct (ps_inv_add name m A G r tuple token ck pkt (alloc (ps_live m1)) Hi Hf Hobs
+                             Hreq Htu Hpk Hnt Hnc Hkn) as [Hcw Hfin].
+        * intros n s Hs Ek. apply (alloc_fresh (ps_live m1)). rewrite <- Ek.
+          apply (ps_insub_live m1 n s).
+          unfold m1.
+          apply (ps_insub_same_subs (mkRsrc name true (psr_observe r) (ps_reg_subs1 tuple ck r)) m name r n s
+                                    eq_refl Hf); [exact Es1|exact Hs].
+        * cbn [List.app]. rewrite Es1. split; [exact Hcw|exact Hfin].
+  Qed.
 End Coh.
